@@ -1,0 +1,7 @@
+//go:build !verif
+
+package submission
+
+import ct "github.com/google/certificate-transparency-go"
+
+func simYield(string, string, string, []ct.ASN1Cert) {}
